@@ -143,24 +143,28 @@ class PowerCut(object):
     """hook: before every state-changing command ask a fresh symbolic Boolean
     'is power cut now?' (lazy fork: n+1 cut points for n writes)"""
 
-    def __init__(self, sx):
+    def __init__(self, sx, tag=""):
         self.sx = sx
         self.k = 0
         self.cut_at = None
+        self.tag = tag
 
     def __call__(self, sim, cmd):
         if not sim.is_write(cmd):
             return
-        if self.sx.truth(self.sx.flag("cut_before_write_%d" % self.k)):
+        if self.sx.truth(self.sx.flag("cut%s_before_write_%d" % (self.tag, self.k))):
             self.cut_at = self.k
             sim.gone = True
             raise nfc.clf.TimeoutError("power cut")
         self.k += 1
 
 
-def cutflow(sx, world, n):
+def cutflow(sx, world, n, retry=False):
     """C02: a write interrupted before its k-th state-changing command; then a
-    fresh reader"""
+    fresh reader.  retry: the tag comes back into the field and the
+    application repeats the write through the SAME tag object (what an
+    application does on a TagCommandError); that second write is interrupted
+    at every point too, or completes"""
     kind = world.kind
     tag, ndef = open_ndef(sx, world, "first")
     if ndef is None:
@@ -185,11 +189,35 @@ def cutflow(sx, world, n):
     sx.reach("cut")
     if cut.cut_at == 0:
         sx.reach("cut_before_first_write")
-    # tag back in the field, fresh reader
+    # tag back in the field
     world.sim.hook = None
     world.sim.gone = False
-    tag2, ndef2 = open_ndef(sx, world, "after-cut")
     phase = "%s:lenfmt=%d->%d" % (kind, lenbytes(world.oldlen), lenbytes(n))
+    completed = False
+    if retry:
+        cut2 = PowerCut(sx, "2")
+        world.sim.hook = cut2
+        try:
+            ndef.octets = msg
+            completed = True
+            sx.reach("retry_completed")
+        except nfc.tag.TagCommandError:
+            if cut2.cut_at is None:
+                sx.check(False, "retry:tag-command-error-without-fault:" + kind)
+            sx.reach("retry_cut")
+        world.sim.hook = None
+        world.sim.gone = False
+        phase = "retry:" + phase
+    # fresh reader
+    tag2, ndef2 = open_ndef(sx, world, "after-cut")
+    if completed:
+        if ndef2 is None or not ndef2.is_readable:
+            sx.check(False, "completed-retry-leaves-no-readable-ndef:" + kind)
+        got = ndef2.octets
+        if len(got) != n:
+            sx.check(False, "completed-retry-length-differs:" + phase)
+        sx.check(sx.eq(got, msg), "completed-retry-content-differs:" + phase)
+        return "retry:completed"
     if ndef2 is None:
         sx.reach("after_cut_no_ndef")
         return "cut:none"
